@@ -142,6 +142,72 @@ func ruleC11Same(r *Run) {
 		r.Check(rule, fmt.Sprintf("(*Router).appendRoute:normalise before %s insert#%d", tm.tierName(tu.fv), tu.ord), w.InstrPos(tu.mu), ok, "the path is normalised before the route is inserted")
 	}
 	ruleC11Prenorm(r, tm)
+	ruleC11Trail(r)
+}
+
+// C11-TRAIL: registration normalises a grouped route twice (group prefix, then prefix + path) and a request once,
+// so the two sides agree only if formatPath is idempotent; for the last-slash rule that means ALL trailing slashes
+// go, not one ("/a//" -> "/a/" -> "/a" otherwise). Checked: formatPath removes trailing slashes with
+// strings.TrimRight / TrimFunc over a cut set that contains '/', or in a loop; a single re-slice or TrimSuffix
+// outside a loop removes one slash only.
+func ruleC11Trail(r *Run) {
+	w := r.W
+	rule := "C11-TRAIL"
+	fp := w.Fn("rux", "Router.formatPath")
+	if len(fp.Params) < 2 {
+		return
+	}
+	prm := fp.Params[1]
+	fromParam := func(v ssa.Value) bool {
+		return flowsFromDeep(v, func(y ssa.Value) bool { return y == ssa.Value(prm) })
+	}
+	all, one := false, false
+	var onePos token.Pos
+	fns := append([]*ssa.Function{fp}, calleesOf(w, fp)...)
+	for _, f := range fns {
+		if f != fp && (f.Signature.Params().Len() != 1 || f.Signature.Results().Len() != 1) {
+			continue
+		}
+		eachInstr(f, func(in ssa.Instruction) {
+			switch x := in.(type) {
+			case *ssa.Call:
+				switch calleeName(x) {
+				case "strings.TrimRight", "strings.Trim":
+					if cs, ok := constString(x.Call.Args[1]); ok && strings.Contains(cs, "/") && (f != fp || fromParam(x.Call.Args[0])) {
+						all = true
+					}
+				case "strings.TrimRightFunc", "strings.TrimFunc":
+					all = true
+				case "strings.TrimSuffix":
+					if cs, ok := constString(x.Call.Args[1]); ok && cs == "/" {
+						if inLoop(in) {
+							all = true
+						} else {
+							one, onePos = true, w.InstrPos(in)
+						}
+					}
+				}
+			case *ssa.Slice:
+				// s[:len(s)-1]
+				if x.High != nil && x.Low == nil {
+					if b, ok := x.High.(*ssa.BinOp); ok && b.Op == token.SUB {
+						if c, okc := constInt(b.Y); okc && c == 1 {
+							if inLoop(in) {
+								all = true
+							} else {
+								one, onePos = true, w.InstrPos(in)
+							}
+						}
+					}
+				}
+			}
+		})
+	}
+	pos := fp.Pos()
+	if !all && one {
+		pos = onePos
+	}
+	r.Check(rule, "(*Router).formatPath:all trailing slashes", pos, all, map[bool]string{true: "without StrictLastSlash every trailing slash is removed (TrimRight over a cut set with '/', or a loop): normalising twice equals normalising once", false: "formatPath does not remove ALL trailing slashes (one re-slice / TrimSuffix at most): it is no longer idempotent, and registration — which normalises a grouped path twice — stores \"/api/items\" for a definition that a request for the same text normalises to \"/api/items/\""}[all])
 }
 
 // C11-PRENORM: the route constructors run a pre-normaliser (simpleFmtPath) that the lookup side does not have.
